@@ -823,6 +823,22 @@ func (g *Global) fnWrites(fn *ssa.Function, root *types.Package) (map[string]boo
 		if g.isPureLib(f) && f != fn {
 			continue
 		}
+		// closures passed to pure library functions may be run by them
+		for _, b := range f.Blocks {
+			for _, in := range b.Instrs {
+				if ci, ok := in.(ssa.CallInstruction); ok {
+					if callee := ci.Common().StaticCallee(); callee != nil && g.isPureLib(callee) {
+						for _, a := range ci.Common().Args {
+							if mc, ok := a.(*ssa.MakeClosure); ok {
+								stack = append(stack, mc.Fn.(*ssa.Function))
+							} else if fa, ok := a.(*ssa.Function); ok {
+								stack = append(stack, fa)
+							}
+						}
+					}
+				}
+			}
+		}
 		if len(f.Blocks) == 0 {
 			continue // assembly / external: trusted not to write verified state
 		}
